@@ -8,7 +8,7 @@ CHECK = {
         "rule": "(i) Lean bucket vs the real ratelimit.Bucket (NewBucketWithRateAndClock, fake clock): 21 fixed + seeded log-uniform rates 1..5e9, capacity = rate "
                 "(as MakeValve) or arbitrary, 40 (80) seeded (now, count) steps each incl. count<=0, count>capacity, same-instant and multi-second gaps; the "
                 "(quantum, fillInterval) the constructor chose is recorded per rate and the 1 % clause checked exactly. (ii) real Sessions with mux.MakeValve "
-                "under testing/synctest (virtual clock), 6 (48) subprocess batches x 7 (10) cases: 1-4 sessions x 1-4 connections x 1-4 streams sharing one valve, "
+                "under testing/synctest (virtual clock), 10 (96) subprocess batches x 8 (12) cases: 1-4 sessions x 1-4 connections x 1-4 streams sharing one valve, "
                 "ordered/unordered, four methods, rates 1 kB/s..100 MB/s (a fifth below the largest message), backlogged/bursty/periodic writers both directions; "
                 "EVERY pair of event instants is checked. non-trivial = bucket step that had to wait / session case with > 20 timed events",
         "assumptions": ["juju/ratelimit behaves as its source at the version pinned in go.mod says (modelled from that source, compared at run time)",
